@@ -1093,9 +1093,10 @@ parser! {
     rule transition_name() -> Id = identifier()
     rule steps() -> Vec<Id> = name:step_name() {
       vec![name]
-    } / tok(TokenType::LeftParen) _ n1:step_name() _ tok(TokenType::Comma) _ n2:step_name() _ nr:(tok(TokenType::Comma) _ n:step_name()) ** _ _ tok(TokenType::RightParen) {
-      // TODO need to extend with nr
-      vec![n1, n2]
+    } / tok(TokenType::LeftParen) _ n1:step_name() _ tok(TokenType::Comma) _ n2:step_name() _ nr:(tok(TokenType::Comma) _ n:step_name() { n }) ** _ _ tok(TokenType::RightParen) {
+      let mut steps = vec![n1, n2];
+      steps.extend(nr);
+      steps
     }
     // TODO add simple_instruction_list , fbd_network, rung
     rule transition_condition() -> ExprKind =  tok(TokenType::Assignment) _ expr:expression() _ tok(TokenType::Semicolon) { expr }
